@@ -133,6 +133,35 @@ theorem c02_T4_inplace_operands {V : Type} {ops : Ops V} {r : Run V} {total : Na
   obtain ⟨h5, h6, _⟩ := hs.agree id v h4
   exact ⟨id, h1, h4, h3, h5, isValue_not_const h5, h6, h2⟩
 
+/-! ## The `u8` counter: why T1 is not `min(255, remaining uses)` -/
+
+/-- `0:x 1:y  2: y = F(x, x, …, x)` with 255 copies of `x`. -/
+def satG : Graph :=
+  { nodes := [.value, .value,
+      .operator { inputs := List.replicate 255 (some 0), outputs := [some 1] }] }
+
+def satOps : Ops Nat :=
+  { len := fun _ => 1, inPlaceIdx := fun _ => [], isSubgraph := fun _ => false
+    run := fun _ _ _ => some [5], runInPlace := fun _ _ _ => none }
+
+def satRun : Run Nat :=
+  { g := satG, consts := fun _ => 0, borrowed := fun _ => none
+    owned := fun v => if v = 0 then some 9 else none }
+
+/-- The state after the only step: counter of `x`, remaining uses of `x`, `temp_values[x]`. -/
+def satAfter : Option (Nat × Nat × Option Nat) :=
+  match initRc satG [2] [1] with
+  | some rc =>
+    match (runSteps satOps satRun { temps := initTemps satRun, rc := rc, caps := nocap } [2]).1 with
+    | .ok st => some (st.rc 0, uses satG [] [1] 0, st.temps 0)
+    | .error _ => none
+  | none => none
+
+/-- The `min(255, remaining uses)` form of T1 is false: after the only step nothing uses `x`
+any more, yet its counter is still 255 and `x` is still in `temp_values` (never released —
+safe, but it stays alive until the end of the run). -/
+theorem c02_T1_min_form_false : satAfter = some (255, 0, some 9) := by
+  decide +kernel
 /-! ## T3 — refinement -/
 
 /-- **T3.** For every graph, every plan made of operator nodes, every owned/borrowed split of
@@ -251,8 +280,8 @@ def demoG : Graph :=
       .operator { inputs := [some 1, some 2], outputs := [some 3], inPlace := true, commutative := true },
       .operator { inputs := [some 3, some 3], outputs := [some 4] }] }
 
-/-- Operators whose result is a function of the *sum of the lengths* of their inputs
-(symmetric, so the contract holds); values are their own length. -/
+/-- Operators with a constant result (so the contract holds trivially) but real in-place
+declarations, so the executor does take values in place; values are their own length. -/
 def demoOps : Ops Nat :=
   { len := fun v => v
     inPlaceIdx := fun i => if i = 5 ∨ i = 6 then [0] else []
